@@ -120,7 +120,10 @@ func (o c09Obj) Disasm(file string, start, end uint64, intelSyntax bool) ([]plug
 	return []plugin.Inst{{Addr: start, Text: "nop", Function: "", File: "", Line: -5}, {Addr: end + 10, Text: "", Function: "f", File: "/src/main.go", Line: 1 << 30}, {Addr: 0, Text: "ret"}}, nil
 }
 
+var c09Viewers = []string{"chrome", "google-chrome", "chromium", "firefox", "sensible-browser", "xdg-open", "eog", "evince", "gv", "kcachegrind"}
+
 type c09swarm struct {
+	viewers    int
 	writerFail bool
 	obj        int // 0 fail, 1 nonsense, 2 nop
 	dot        bool
@@ -132,7 +135,11 @@ type c09swarm struct {
 
 func genC09Swarm(t *simrt.Tape) c09swarm {
 	K := simrt.KCfg
-	return c09swarm{writerFail: t.Bool(K, 15), obj: t.Choose(K, 3), dot: t.Bool(K, 60), browser: t.Bool(K, 30), diskRate: []int{0, 0, 20, 100}[t.Choose(K, 4)], readErr: t.Bool(K, 20), term: t.Bool(K, 30)}
+	viewers := 0
+	if t.Bool(K, 60) {
+		viewers = t.Choose(K, 1<<len(c09Viewers))
+	}
+	return c09swarm{viewers: viewers, writerFail: t.Bool(K, 15), obj: t.Choose(K, 3), dot: t.Bool(K, 60), browser: t.Bool(K, 30), diskRate: []int{0, 0, 20, 100}[t.Choose(K, 4)], readErr: t.Bool(K, 20), term: t.Bool(K, 30)}
 }
 
 func (s c09swarm) install() plugin.ObjTool {
@@ -140,8 +147,9 @@ func (s c09swarm) install() plugin.ObjTool {
 	if s.dot {
 		installTools(true)
 	}
-	if s.browser {
-		for _, b := range []string{"chrome", "sensible-browser", "eog", "evince", "gv", "kcachegrind"} {
+	// every viewer is installed or not independently (s.viewers is a bit set)
+	for i, b := range c09Viewers {
+		if s.viewers&(1<<i) != 0 {
 			simexec.Register(b, &simexec.Program{Batch: func(args []string, stdin []byte) ([]byte, []byte, int) { return nil, nil, 0 }})
 		}
 	}
